@@ -1011,6 +1011,15 @@ class Interp:
             return res
         if name in COMBINATORS_PASS:
             return [(w, env, v, None)]
+        if clo is not None and name in ("for_each", "try_for_each"):
+            # an iterator loop: the closure body runs zero or more times — its steps are starred, like those of a `for` body
+            star = []
+            for (a, _b, _c, _f) in run_closure(UNK):
+                for c in a[len(w):]:
+                    c = c if c >= STAR else c + STAR
+                    if c not in star:
+                        star.append(c)
+            return [(w + tuple(star), env, UNK, None)]
         if clo is not None and self.closure_has_step(clo) and name not in ("map_err", "ok_or_else", "unwrap_or_else", "or_else", "and_then", "map",
                                                                           "is_some_and", "is_ok_and"):
             self.fail("step-inside-closure:" + name)
